@@ -103,6 +103,9 @@ pub fn hayson_roundtrip(v: &V) -> Verdict {
         Ok(Some(Ok(back))) => same(v, &from_lib(&back)).map_err(|d| ("typed-mismatch".to_string(), d))?,
         Ok(None) => {}
     }
+    // every typed entry point (from_str / from_slice / from_reader::<T>, Option<T>, Vec<T>
+    // element, from_value::<T> with sorted members) on the emitted text
+    super::c05::typed_decode_agrees(&s, v, true).map_err(|(st, d)| (st.replace("d2-", ""), d))?;
     Ok(())
 }
 
